@@ -7,7 +7,10 @@
 // extension OID the parser knows, on structure/byte-mutated real certificates, in both modes.
 // T2: `pol`  — certificate-policies JSON view (parser policy loop + MarshalJSON index logic),
 //
-//	`names` — purgeNameDuplicates.
+//	`names` — purgeNameDuplicates,
+//	`coll` / `jnames` — CollectAllNames and the names + redacted part of the JSON view (names.go),
+//	`vh` — VerifyHostname on real parsed certificates against the C09 model (names.go),
+//	`gsi` `ku` `kan` `san` `jx` — JSON sub-views with index / table / slice logic (views.go).
 package c02
 
 import (
@@ -241,6 +244,12 @@ func exec(line string) zv.Out {
 			out = "-"
 		}
 		return zv.Out{Go: out, Viol: viol, Tags: []string{"op=names", fmt.Sprintf("names:n<=%d", (len(names)/4+1)*4)}}
+	case "coll", "jnames":
+		return execNames(f)
+	case "vh":
+		return execVH(f)
+	case "gsi", "ku", "kan", "san", "jx":
+		return execViews(f)
 	}
 	panic("c02: unknown op")
 }
@@ -394,6 +403,11 @@ func gen(g *zv.Gen) {
 		}
 		add(false, "c02 names "+l)
 	}
+	// ---- coll / jnames: CollectAllNames and the names part of the JSON view (T2 + T3) ----
+	genNames(g, add)
+	genVH(g, add)
+	// ---- gsi / ku / kan / san / jx: JSON sub-views with index, table and slice logic (T2 + T3) ----
+	genViews(g, add)
 	// ---- cert: T3 ----
 	certs := s.Class["cert"]
 	trees := s.Trees["cert"]
@@ -523,5 +537,5 @@ func gen(g *zv.Gen) {
 
 func init() {
 	zv.Register(&zv.Prop{ID: "C02", Topic: "c02", Gen: gen, Exec: exec, Timeout: c01.FrameworkTimeout,
-		Rule: "certificates = hand-built certificates carrying a random subset of the 16 extension OIDs the parser's switch knows with valid / structurally mutated / byte-mutated / random payloads, structure- and byte-mutated real certificates from the tree, Ed25519 keys of odd lengths, each with a batch of candidate parents, both parsing modes; structure-aware edits of the SubjectPublicKeyInfo for every key type (c01.SPKIVariants: EC point format octet 00..ff, compressed / hybrid forms with right and wrong parity, x without a point, point lengths, coordinates off the curve / >= p, curve identifier swapped / unknown / explicit, for P-224/256/384/521; RSA modulus and exponent zero / negative / unpadded / huge / even, RSAPublicKey with missing / extra / swapped members; Ed25519 / X25519 key lengths and special points; DSA p,q,g,y zero / one / negative / missing; algorithm parameters absent / NULL / OID / doubled, unknown algorithm, BIT STRING padding) plus random edits of the first / last key octets and the headers, carried by hand-built not-self-issued CA certificates and by the not-self-issued real certificates of the tree, each run against children signed with every signature algorithm (RSA PKCS#1 / PSS, DSA, ECDSA on the four curves, Ed25519) and through CheckSignatureFromKey with the certificate's own key under seven algorithms; only accepted certificates count as non-trivial; every certificate-policies shape with <= 3 user notices (text / reference / both / neither / empty text / empty text + reference) x CPS, and random multi-policy shapes; random name lists with duplicates; T3 = recover + JSON twice byte-identical (+ re-parse) + independent expected policies view"})
+		Rule: "certificates = hand-built certificates carrying a random subset of the 16 extension OIDs the parser's switch knows with valid / structurally mutated / byte-mutated / random payloads, structure- and byte-mutated real certificates from the tree, Ed25519 keys of odd lengths, each with a batch of candidate parents, both parsing modes; structure-aware edits of the SubjectPublicKeyInfo for every key type (c01.SPKIVariants: EC point format octet 00..ff, compressed / hybrid forms with right and wrong parity, x without a point, point lengths, coordinates off the curve / >= p, curve identifier swapped / unknown / explicit, for P-224/256/384/521; RSA modulus and exponent zero / negative / unpadded / huge / even, RSAPublicKey with missing / extra / swapped members; Ed25519 / X25519 key lengths and special points; DSA p,q,g,y zero / one / negative / missing; algorithm parameters absent / NULL / OID / doubled, unknown algorithm, BIT STRING padding) plus random edits of the first / last key octets and the headers, carried by hand-built not-self-issued CA certificates and by the not-self-issued real certificates of the tree, each run against children signed with every signature algorithm (RSA PKCS#1 / PSS, DSA, ECDSA on the four curves, Ed25519) and through CheckSignatureFromKey with the certificate's own key under seven algorithms; only accepted certificates count as non-trivial; every certificate-policies shape with <= 3 user notices (text / reference / both / neither / empty text / empty text + reference) x CPS, and random multi-policy shapes; random name lists with duplicates; CollectAllNames / JSON names+redacted on Certificate values and real certificates with marked (?. / *.), dot-free, malformed and duplicate names, URI and IP SANs (also of lengths the parser never produces); VerifyHostname on real certificates over 26 host spellings incl. brackets, trailing dots, case, non-UTF-8; GeneralSubtreeIP JSON for every pair of address / mask lengths in {0,1,3,4,5,12,15,16,17,32}, every /0../32 prefix, non-prefix masks, v4-mapped forms, struct values and real name-constraints certificates; every 10-bit KeyUsage and values beyond 2^32; the public-key / signature algorithm name tables and beyond; JsonifyExtensions over known / unknown / repeated OIDs and MaxPathLen -1..5; T3 = recover + JSON twice byte-identical (+ re-parse) + independent expected policies view"})
 }
